@@ -45,7 +45,7 @@ def plan(tier, seed):
     jobs = []
     i = 0
     if tier == "quick":
-        n_untraced, n_traced, n_einsum, n_jit = 110, 14, 24, 0
+        n_untraced, n_traced, n_einsum, n_jit = 96, 12, 24, 0
     else:
         n_untraced, n_traced, n_einsum, n_jit = 4000, 400, 800, 24
     for k in range(n_traced):
